@@ -97,6 +97,7 @@ type Task struct {
 	gotOK  bool
 	selIdx int
 	chosen int
+	acc    sigKey // hashes of local (non-parking) operations since the last transition
 }
 
 type transition struct {
@@ -133,6 +134,7 @@ type Exec struct {
 	steps      int64
 	horizon    int64
 	prefix     []int
+	expect     []uint64 // recorded option-set hashes of the prefix (replay divergence check)
 	Choices    []int
 	Points     []Point
 	pre        int
@@ -144,12 +146,12 @@ type Exec struct {
 	diverged   string
 	visit      func(post sigKey, pre int) bool // called after every decision at or beyond the end of the prefix; true = state already expanded with at least this budget: stop
 	clockVer   uint64
+	delayMode  bool // deviation = delay w.r.t. the deterministic default scheduler (instead of preemption)
 	keyRunning bool // bounded search: the running task is part of the state (it decides what is a preemption)
 	aborted    bool
 	ending     bool
 	log        []string
 	wantLog    bool
-	postKeys   []sigKey // signature after each recorded point's transition completed
 	watchdog   *time.Timer
 }
 
@@ -251,7 +253,11 @@ func (e *Exec) lockOf(up unsafe.Pointer) *lockState {
 func (e *Exec) inline(what string, obj string, ver *uint64) {
 	t := e.cur
 	t.step++
-	e.sig = e.sig.add(evHash(t.Name, t.step, what, -1, []string{obj}, []uint64{*ver}))
+	// counted in the signature when the task takes its next transition: a parked task's trailing
+	// local operations are a deterministic consequence of its last transition, so leaving them out
+	// until then keeps "equal signature => equal state" and makes the successor key of
+	// (state, option) computable before the option is executed.
+	t.acc = t.acc.add(evHash(t.Name, t.step, what, -1, []string{obj}, []uint64{*ver}))
 	*ver++
 }
 
@@ -545,9 +551,9 @@ func (e *Exec) describe(tr transition) sigKey {
 			objs, vers = append(objs, o.obj), append(vers, e.memVer[o.obj])
 		}
 	}
-	h := evHash(t.Name, t.step+1, what, tr.variant, objs, vers)
+	h := evHash(t.Name, t.step+1, what, tr.variant, objs, vers).add(t.acc)
 	if tr.partner != nil {
-		h = h.add(evHash(tr.partner.Name, tr.partner.step+1, "rdv", tr.pcase, objs, vers))
+		h = h.add(evHash(tr.partner.Name, tr.partner.step+1, "rdv", tr.pcase, objs, vers)).add(tr.partner.acc)
 	}
 	return h
 }
@@ -555,6 +561,10 @@ func (e *Exec) describe(tr transition) sigKey {
 func (e *Exec) apply(tr transition) (resume []*Task) {
 	e.sig = e.sig.add(e.describe(tr))
 	t := tr.t
+	t.acc = sigKey{}
+	if tr.partner != nil {
+		tr.partner.acc = sigKey{}
+	}
 	o := t.pend
 	t.step++
 	deliver := func(cs *chanState, val any, r *Task, rcase int) {
@@ -690,8 +700,19 @@ func (e *Exec) run(harness func(*H)) {
 			p.Costs = make([]uint8, len(trs))
 			p.PreKeys = make([]sigKey, len(trs))
 			p.OptTasks = make([]int, len(trs))
+			skipped := 0
 			for i, tr := range trs {
-				if runEnabled && tr.t != running && !tr.t.Free && !running.Free {
+				if e.delayMode {
+					// delay bounding: the default scheduler takes the first option of the canonical
+					// order; option i costs the number of non-environment options it skips
+					if !tr.t.Free {
+						if skipped > 250 {
+							skipped = 250
+						}
+						p.Costs[i] = uint8(skipped)
+						skipped++
+					}
+				} else if runEnabled && tr.t != running && !tr.t.Free && !running.Free {
 					p.Costs[i] = 1
 				}
 				k := e.sig.add(e.describe(tr))
@@ -703,6 +724,10 @@ func (e *Exec) run(harness func(*H)) {
 			}
 			if pi < len(e.prefix) {
 				idx = e.prefix[pi]
+				if pi < len(e.expect) && e.expect[pi] != p.Desc {
+					e.diverged = fmt.Sprintf("replay divergence at point %d: the enabled set differs from the recorded one (nondeterminism outside the scheduler's control)", pi)
+					break
+				}
 				if idx >= len(trs) {
 					e.diverged = fmt.Sprintf("replay divergence at point %d: choice %d of %d options", pi, idx, len(trs))
 					break
@@ -711,6 +736,14 @@ func (e *Exec) run(harness func(*H)) {
 			e.pre += int(p.Costs[idx])
 			e.Points = append(e.Points, p)
 			e.Choices = append(e.Choices, idx)
+			if pi >= len(e.prefix) && e.visit != nil {
+				// default continuation: stop as soon as it enters a state already expanded with at
+				// least this budget (its alternatives at this point are still explored by the caller)
+				if e.visit(p.PreKeys[idx], e.pre) {
+					e.aborted = true
+					break
+				}
+			}
 		}
 		tr := trs[idx]
 		if e.wantLog {
@@ -724,19 +757,6 @@ func (e *Exec) run(harness func(*H)) {
 			}
 		}
 		e.cur = nil
-		if len(trs) > 1 {
-			k := e.sig
-			if e.keyRunning {
-				k.a = mix(k.a, uint64(running.ID)+11)
-			}
-			e.postKeys = append(e.postKeys, k)
-			if e.visit != nil && len(e.Points) >= len(e.prefix) && len(e.Points) > 0 {
-				if e.visit(k, e.pre) {
-					e.aborted = true
-					break
-				}
-			}
-		}
 	}
 	e.teardown()
 }
